@@ -356,16 +356,6 @@ impl World {
                     Ok(Err(e)) => arr(vec![text("error"), text(&e.to_string())]),
                     Err(p) => arr(vec![text("panic"), text(&p)]),
                 };
-                // a response that became ready is an emission of the device
-                if let (_, StateView::Ready(b)) = dev_view(&self.dev) {
-                    if !self.responses.iter().any(|m| m.bytes == b) {
-                        let sym = match data_of(&b) {
-                            Some(data) => self.abstract_emitted(&data, true, None),
-                            None => arr(vec![uint(1)]),
-                        };
-                        self.responses.push(Msg { bytes: b, sym });
-                    }
-                }
                 (arr(vec![uint(4), bytes(&sig)]), out)
             }
             TOp::Ready => (arr(vec![uint(5)]), arr(vec![uint(4), Value::Bool(self.dev.response_ready())])),
@@ -420,6 +410,16 @@ impl World {
                 (arr(vec![uint(9)]), out)
             }
         };
+        // a response that became ready during this call is an emission of the device
+        if let (_, StateView::Ready(b)) = dev_view(&self.dev) {
+            if !self.responses.iter().any(|m| m.bytes == b) {
+                let sym = match data_of(&b) {
+                    Some(data) => self.abstract_emitted(&data, true, None),
+                    None => arr(vec![uint(1)]),
+                };
+                self.responses.push(Msg { bytes: b, sym });
+            }
+        }
         let ems: Vec<Value> = self.emissions[em_before..]
             .iter()
             .map(|e| {
